@@ -8,7 +8,17 @@ HOOK_COMMITS = subprocess.run(
     capture_output=True, text=True).stdout.strip().splitlines()
 
 # id -> (technique, level text, level note, design ref)
+_IOVEC = "model-based stateful property testing (proptest operation sequences with generated arguments, interpreter + shadow byte-pipe model, invariants after every step, whole-history shrinking)"
 CHECKS = {
+    "C03": (_IOVEC,
+            "Tens of thousands (over a million in thorough) of generated histories of up to 60/200 operations over up to four OwningIovecs (all producer, consumer, arena and structural operations, sizes around the 64/256-byte copy thresholds and the arena chunk sizes) are executed against a shadow pipe model; contents, sizes, return values and the agreement of all read-side views are checked after every operation for every live iovec.",
+            "Caller contract respected by construction (buffers outlive iovecs, backrefs used once on their own iovec, pop_front only with a stable prefix). Bounded history length.", "DESIGN.md §5 C03"),
+    "C04": (_IOVEC + " + exhaustive enumeration of placeholder fill orders",
+            "The same interpreter with a placeholder-heavy operation mix (many in flight, random fill order, merges into the placeholder's slice, byte-granular consumption up to the blocked slice); visibility is bounded by the earliest pending placeholder after every step, a byte once observable never changes, and Ok/Err of iovs/flatten/stable_consumer tracks pending placeholders; all n! fill orders for n <= 5 (6) placeholders x 3 push-size variants are enumerated.",
+            "Only an upper bound on visibility while a placeholder is pending.", "DESIGN.md §5 C04"),
+    "C05": (_IOVEC + " with an address-level invariant from a source hook (live-chunk registry + quarantine/poison of released chunks); codec, chunker and reader runs with held slices",
+            "After every operation every reachable slice (iovec read side, held AnchoredSlices, held StreamChunker chunks, kept StreamReader record clones, Encoder/Decoder output under anchored input) must lie in a caller buffer or wholly inside one live arena chunk, never in a released one, and hold the expected bytes; owned ranges must be disjoint. Released chunks stay mapped and poisoned for the rest of the case, so the test is exact and independent of allocator address reuse.",
+            "Hook: owning_iovec/verif-hooks. Lifetime misuse needing caller-side unsafe is out of scope.", "DESIGN.md §5 C05"),
     "C01": ("property-based round-trip testing (proptest: structured payload + feeding/draining plans, shrinking) + small-scope exhaustive enumeration through a limits hook",
             "Thousands (hundreds of thousands in thorough) of generated (payload, encoder plan, decoder plan) cases with boundary-biased lengths, FE/FD-dense bytes, all four input methods per side, scripted short-read/EINTR readers and consumer drains in flight; plus every string over {FE,FD,00} up to length 7 (9) x 4 tiny limit pairs x every 2-way cut x copy/borrow on both sides. Sampled, not exhaustive, at production limits.",
             "Round-trip oracle only (an encoder and decoder wrong in the same way pass; C07 covers that). Hook: hcobs/verif-hooks.", "DESIGN.md §5 C01"),
@@ -27,6 +37,9 @@ CHECKS = {
     "C09": ("property-based testing with an online invariant over the call history (observed bytes never change, drained = observable prefix, observable prefix of final output, lag bound) on generated drain schedules and on multi-MiB generated streams",
             "After every encoder/decoder call the consumable bytes are compared with everything seen before and with the final output; lag is checked against the constant bound after every call, on short messages with dense drain schedules and on streams of 2..24 MiB (16..320 MiB thorough) through Encoder, Decoder and Encoder->Decoder pipelines.",
             "Arena requests <= 512 KiB; the bound is checked as a constant.", "DESIGN.md §5 C09"),
+    "C10": ("property-based testing with a resource-accounting invariant (process-wide live-chunk counters before = after for generated histories ending in drop; sampled peak of live bytes on generated multi-MiB streams)",
+            "Generated OwningIovec/AnchoredSlice histories, Encoder/Decoder plans, StreamReader and StreamChunker runs end by dropping every object in a generated order, after which (num_live_chunks, num_live_bytes) must be back to their initial values; streams of 16..40 MiB (32..512 MiB thorough) through Encoder / Decoder / pipeline with a draining consumer must keep live bytes under 4 MiB per codec and must not grow between the first and second half of the stream.",
+            "Single-threaded workers (process-wide counters); arena requests <= 512 KiB; constant bound with margin.", "DESIGN.md §5 C10"),
     "C11": ("property-based round-trip + differential testing against an independently written Roughtime layout (proptest recursive value generator), limit checks with claimed-length values",
             "Generated lists of pairs (repeated tags, empty values, borrowed/owned Cow, &str, nested messages to depth 3, re-encoded views; all three constructors; OwningIovec and HCOBS Encoder sinks) are encoded and compared byte for byte with the reference layout, then read back through every MessageView accessor; accept/reject at the i32::MAX limits is decided with values that only claim a length, including exact edge totals.",
             "Trusts refimpl/tlv_ref.rs; more than i32::MAX pairs only in the thorough tier.", "DESIGN.md §5 C11"),
@@ -45,6 +58,9 @@ CHECKS = {
     "C17": ("fault-injection property testing: scripted reader faults (short reads, EINTR, EOF, hard errors) enumerated exhaustively up to a script length and generated randomly beyond, against a reference read loop written from the documentation",
             "All fault scripts up to length 4 (5) x 7 counts x 6 attempt limits x 5 (entry point, arena state) pairs are enumerated, plus random scripts and sequences of encode_read/decode_read calls; the instrumented reader records the buffer size of every call, and the result, call count, offered sizes, error kind and final codec output are compared with the reference.",
             "Readers never deliver more than their buffer; reference codec of C07.", "DESIGN.md §5 C17"),
+    "C20": (_IOVEC + " with two models (one per side of a clone/take) and the live-chunk registry",
+            "Generated prefix, clone()/take(), then generated suffixes interleaved over both sides (optionally dropping one side first); each side is compared with its own model after every operation and all exposed slices are address-checked with quarantine on, so interference through shared slices, anchors, arena cache or backrefs shows up as a content, size or liveness mismatch.",
+            "Clone only with no placeholder pending (the property's own precondition). Hook: owning_iovec/verif-hooks.", "DESIGN.md §5 C20"),
 }
 
 ALL = ["C%02d" % i for i in range(1, 21)]
